@@ -249,3 +249,171 @@ pub fn c17_flatstack_merge_capacity() {
     cover!(true, "end reached");
     sym::forget((src, tgt));
 }
+
+// ---------------------------------------------------------------------------------------------------------------
+// allocator-call form (stubbed allocator entry points, see allocstub.rs)
+// ---------------------------------------------------------------------------------------------------------------
+use crate::allocstub::calls;
+
+/// Vacuity guard for the stubs: an un-presized push DOES call the allocator, and the counter sees it.
+// @h prop=C17 tier=quick kind=proof stubbing=yes stubs=std::alloc::alloc,alloc::alloc::realloc_nonnull inst="allocator stubs (witness)" bounds="OwnedRegion<u8>::default() + one push of 3 bytes, then 6 more bytes" desc="the counting stubs are in effect: first push = 1 call (alloc), growth 8 -> 16 = 1 call (realloc); functional reads stay correct through the stubs"
+#[cfg_attr(kani, kani::proof, kani::unwind(10))]
+#[cfg_attr(kani, kani::stub(std::alloc::alloc, crate::allocstub::counting_alloc))]
+#[cfg_attr(kani, kani::stub(alloc::alloc::realloc_nonnull, crate::allocstub::counting_realloc))]
+pub fn c17_alloc_stub_witness() {
+    let a = Bytes::<3>::any_len(3);
+    let b = Bytes::<6>::any_len(6);
+    let mut r = OwnedRegion::<u8>::default();
+    let n0 = calls();
+    let ia = r.push(a.as_slice());
+    assert!(calls() == n0 + 1, "C17: WITNESS-BROKEN first push of an empty region is not exactly one allocator call");
+    let ib = r.push(b.as_slice());
+    assert!(calls() == n0 + 2, "C17: WITNESS-BROKEN growth is not exactly one allocator call");
+    assert!(r.index(ia)[2] == a.buf[2] && r.index(ib)[5] == b.buf[5] && r.index(ib).len() == 6, "C17: reads through the allocator stubs differ");
+    cover!(true, "end reached");
+    sym::forget(r);
+}
+
+macro_rules! no_alloc_window {
+    ($R:ty, $mk:expr, |$r:ident, $v:ident| $push:expr) => {{
+        let batch = $mk;
+        let mut src = <$R>::default();
+        for $v in batch.iter() {
+            let $r = &mut src;
+            let _ = $push;
+        }
+        let mut tgt = <$R as Region>::merge_regions(core::iter::once(&src));
+        let mut tgt2 = <$R>::default();
+        tgt2.reserve_regions(core::iter::once(&src));
+        let n0 = calls();
+        for $v in batch.iter() {
+            let $r = &mut tgt;
+            let _ = $push;
+        }
+        for $v in batch.iter() {
+            let $r = &mut tgt2;
+            let _ = $push;
+        }
+        assert!(calls() == n0, "C17: ALLOCATOR-CALLED while pushing exactly the announced plain-data contents");
+        cover!(true, "end reached");
+        sym::forget((src, tgt, tgt2, batch));
+    }};
+}
+
+// @h prop=C17 tier=quick kind=proof stubbing=yes stubs=std::alloc::alloc,alloc::alloc::realloc_nonnull inst="OwnedRegion<u8> (allocator-call form)" bounds="batch of 3 items (2, 0, 3 symbolic bytes) pushed into merge_regions(source) and into a reserve_regions'd region" desc="the allocator is not called at all while the announced contents are pushed"
+#[cfg_attr(kani, kani::proof, kani::unwind(10))]
+#[cfg_attr(kani, kani::stub(std::alloc::alloc, crate::allocstub::counting_alloc))]
+#[cfg_attr(kani, kani::stub(alloc::alloc::realloc_nonnull, crate::allocstub::counting_realloc))]
+pub fn c17_noalloc_owned() {
+    no_alloc_window!(OwnedRegion<u8>, byte_batch(), |r, v| r.push(v.as_slice()));
+}
+
+// @h prop=C17 tier=quick kind=proof stubbing=yes stubs=std::alloc::alloc,alloc::alloc::realloc_nonnull inst="SliceRegion<MirrorRegion<u8>> (allocator-call form)" bounds="batch of 3 slices (2, 0, 3 elements)" desc="the allocator is not called at all while the announced contents are pushed"
+#[cfg_attr(kani, kani::proof, kani::unwind(10))]
+#[cfg_attr(kani, kani::stub(std::alloc::alloc, crate::allocstub::counting_alloc))]
+#[cfg_attr(kani, kani::stub(alloc::alloc::realloc_nonnull, crate::allocstub::counting_realloc))]
+pub fn c17_noalloc_slice() {
+    no_alloc_window!(SliceRegion<MirrorRegion<u8>>, byte_batch(), |r, v| r.push(v.as_slice()));
+}
+
+// @h prop=C17 tier=quick kind=proof stubbing=yes stubs=std::alloc::alloc,alloc::alloc::realloc_nonnull inst="StringRegion and OptionRegion<StringRegion> (allocator-call form)" bounds="batch of 3 strings (5, 0, 4 bytes) resp. Some/None/Some" desc="the allocator is not called at all while the announced contents are pushed"
+#[cfg_attr(kani, kani::proof, kani::unwind(10))]
+#[cfg_attr(kani, kani::stub(std::alloc::alloc, crate::allocstub::counting_alloc))]
+#[cfg_attr(kani, kani::stub(alloc::alloc::realloc_nonnull, crate::allocstub::counting_realloc))]
+pub fn c17_noalloc_string_option() {
+    no_alloc_window!(StringRegion, str_batch(), |r, v| r.push(v.as_str()));
+    let mk = || [Some(string_shaped(&[2, 3])), None, Some(string_shaped(&[4]))];
+    no_alloc_window!(OptionRegion<StringRegion>, mk(), |r, v| r.push(v));
+}
+
+/// One growth step of the byte storage: from a vector with `len <= cap`, appending `k` bytes calls the allocator
+/// not at all if they fit and exactly once otherwise, and then at least doubles the capacity.  By induction on this
+/// step n pushes cost O(log n) allocator calls per storage.
+fn growth_step(cap: usize, len: usize, k: usize) {
+    use flatcontainer::impls::storage::PushStorage;
+    let mut v: Vec<u8> = Vec::with_capacity(cap);
+    let fill = sym::bytes::<16>();
+    v.extend_from_slice(&fill[..len]);
+    let cap0 = v.capacity();
+    let add = sym::bytes::<8>();
+    let n0 = calls();
+    v.push_storage(&add[..k]);
+    let n = calls() - n0;
+    if len + k <= cap0 {
+        assert!(n == 0 && v.capacity() == cap0, "C17: storage called the allocator although the data fits");
+    } else {
+        assert!(n == 1, "C17: storage growth is not exactly one allocator call");
+        assert!(v.capacity() >= 2 * cap0 && v.capacity() >= len + k, "C17: storage growth does not at least double the capacity");
+    }
+    assert!(v.len() == len + k && v[len + k - 1] == add[k - 1], "C17: stored data differs after growth");
+    sym::forget(v);
+}
+
+// @h prop=C17 tier=quick kind=proof stubbing=yes stubs=std::alloc::alloc,alloc::alloc::realloc_nonnull inst="PushStorage<&[u8]> for Vec<u8>, one growth step" bounds="(cap, len, k) in {(8,8,1), (8,5,3), (8,6,3), (16,16,4), (0,0,2)}: full, exactly fitting, overflowing by one, and empty storage; symbolic contents" desc="no allocator call if the data fits, else exactly one and capacity at least doubles (=> O(log n) calls for n pushes, by induction on this step)"
+#[cfg_attr(kani, kani::proof, kani::unwind(20))]
+#[cfg_attr(kani, kani::stub(std::alloc::alloc, crate::allocstub::counting_alloc))]
+#[cfg_attr(kani, kani::stub(alloc::alloc::realloc_nonnull, crate::allocstub::counting_realloc))]
+pub fn c17_growth_step() {
+    growth_step(8, 8, 1);
+    growth_step(8, 5, 3);
+    growth_step(8, 6, 3);
+    growth_step(16, 16, 4);
+    growth_step(0, 0, 2);
+    cover!(true, "end reached");
+}
+
+// @h prop=C17 tier=quick kind=proof stubbing=yes stubs=std::alloc::alloc,alloc::alloc::realloc_nonnull inst="pushes into storages that are large enough (no per-push temporaries)" bounds="OwnedRegion<u8>, StringRegion, SliceRegion<MirrorRegion<u8>>, ResultRegion<StringRegion,StringRegion>, TupleABRegion after a first push that allocated: a second, smaller item" desc="a push whose data fits the existing storage does not call the allocator at all"
+#[cfg_attr(kani, kani::proof, kani::unwind(10))]
+#[cfg_attr(kani, kani::stub(std::alloc::alloc, crate::allocstub::counting_alloc))]
+#[cfg_attr(kani, kani::stub(alloc::alloc::realloc_nonnull, crate::allocstub::counting_realloc))]
+pub fn c17_no_temporaries() {
+    let a = Bytes::<3>::any_len(3);
+    let b = Bytes::<3>::any_len(2);
+    let s = string_shaped(&[2, 3]);
+    let t = string_shaped(&[2]);
+    let mut o = OwnedRegion::<u8>::default();
+    let mut st = <StringRegion>::default();
+    let mut sl = SliceRegion::<MirrorRegion<u8>>::default();
+    let mut rr = ResultRegion::<StringRegion, StringRegion>::default();
+    let mut tp = TupleABRegion::<StringRegion, OwnedRegion<u8>>::default();
+    let _ = o.push(a.as_slice());
+    let _ = st.push(s.as_str());
+    let _ = sl.push(a.as_slice());
+    let _ = rr.push(Ok::<&str, &str>(s.as_str()));
+    let _ = rr.push(Err::<&str, &str>(s.as_str()));
+    let _ = tp.push((s.as_str(), a.as_slice()));
+    let n0 = calls();
+    let _ = o.push(b.as_slice());
+    let _ = st.push(t.as_str());
+    let _ = sl.push(b.as_slice());
+    let _ = rr.push(Ok::<&str, &str>(t.as_str()));
+    let _ = rr.push(Err::<&str, &str>(t.as_str()));
+    let _ = tp.push((t.as_str(), b.as_slice()));
+    assert!(calls() == n0, "C17: ALLOCATOR-CALLED by a push whose data fits the existing storage");
+    cover!(true, "end reached");
+    sym::forget((o, st, sl, rr, tp));
+}
+
+// @h prop=C17 tier=quick kind=proof inst="OwnedRegion<u8>: owned Vec<u8> form onto an EMPTY pre-sized region" bounds="reserve_items for 3 items (2, 0, 3 bytes) on an empty region, then the items pushed as owned Vec<u8> (first push meets an empty, pre-sized storage)" desc="the reserved buffer is kept: capacities constant, whatever input form delivers the announced contents"
+#[cfg_attr(kani, kani::proof, kani::unwind(10))]
+pub fn c17_owned_reserve_items_vec_form() {
+    let batch = byte_batch();
+    let mut t = OwnedRegion::<u8>::default();
+    t.reserve_items(batch.iter().map(|b| b.as_slice()));
+    let before = caps(&t);
+    for b in batch.iter() {
+        let _ = t.push(b.to_vec());
+    }
+    assert!(same_caps(before, caps(&t)), "C17: CAPACITY-CHANGED when the announced contents arrive as owned vectors");
+    // the same on a region that was populated and cleared (empty again, capacity retained)
+    let mut u = OwnedRegion::<u8>::default();
+    let _ = u.push(batch[2].as_slice());
+    u.clear();
+    u.reserve_items(batch.iter().map(|b| b.as_slice()));
+    let before = caps(&u);
+    let _ = u.push(batch[0].to_vec());
+    let _ = u.push(batch[2].to_vec());
+    assert!(same_caps(before, caps(&u)), "C17: CAPACITY-CHANGED on a cleared, pre-sized region");
+    cover!(true, "end reached");
+    sym::forget((t, u));
+}
